@@ -339,6 +339,22 @@ func init() {
 			c.Errf("negotiate: mcp.legacyVersionFor is missing: ServerSession.initialize ignores the transport's version filter (F10); the Lean model describes the repaired behaviour")
 		}
 		fmt.Fprintf(&b, "def initializeRespectsTransport : Bool := %v\n", hasFix)
+		// F46 repair: the SDK's own wrapper forwards the question to the transport it wraps. On a tree
+		// without the method a LoggingTransport in the server's stack hides the inner transport's filter;
+		// the flag is then false, `Stack.stack_eq_transport` no longer holds and the harness exhibits the
+		// cells (C07: F46 …).
+		logFwd := c.Func("mcp", "LoggingTransport", "SupportsProtocolVersion")
+		fmt.Fprintf(&b, "/-- `*LoggingTransport` has a `SupportsProtocolVersion` method delegating to the wrapped transport (F46 repair) -/\ndef loggingTransportForwards : Bool := %v\n", logFwd != nil)
+		if logFwd == nil {
+			c.Errf("negotiate: LoggingTransport does not implement ProtocolVersionSupporter: wrapping a server transport in it makes filterSupportedVersions treat the stack as serving every version (F46); the Lean model describes the repaired behaviour")
+			c.Fact("negotiate.logging_forward", "")
+		} else {
+			var parts []string
+			for _, st := range logFwd.Body.List {
+				parts = append(parts, strings.Join(strings.Fields(c.Src(st)), " "))
+			}
+			c.Fact("negotiate.logging_forward", strings.Join(parts, " ; "))
+		}
 		// which transports implement ProtocolVersionSupporter
 		var impls []string
 		for _, f := range c.load("mcp") {
@@ -387,6 +403,76 @@ func init() {
 			"server.initialize_filter":   findStmt(c, ini, "assign", "legacyVersionFor(") + " | " + findStmt(c, ini, "if", "version == \"\""),
 		}
 		c.Fact("negotiate.flow", facts)
+		// Client.Connect reads the caller's options value and never writes through the pointer, hands it
+		// on, or replaces it (`Stack.reconnect_same_options`): every statement of Client.Connect that
+		// assigns to opts / a field of it, calls a method on it, or passes it to a call
+		optsUses := []string{}
+		if conn != nil {
+			ast.Inspect(conn.Body, func(n ast.Node) bool {
+				isOpts := func(e ast.Expr) bool {
+					for {
+						switch x := e.(type) {
+						case *ast.SelectorExpr:
+							e = x.X
+							continue
+						case *ast.StarExpr:
+							e = x.X
+							continue
+						case *ast.UnaryExpr:
+							e = x.X
+							continue
+						case *ast.Ident:
+							return x.Name == "opts"
+						}
+						return false
+					}
+				}
+				switch x := n.(type) {
+				case *ast.AssignStmt:
+					for _, l := range x.Lhs {
+						if isOpts(l) {
+							optsUses = append(optsUses, strings.Join(strings.Fields(c.Src(x)), " "))
+						}
+					}
+				case *ast.IncDecStmt:
+					if isOpts(x.X) {
+						optsUses = append(optsUses, c.Src(x))
+					}
+				case *ast.CallExpr:
+					if se, ok := x.Fun.(*ast.SelectorExpr); ok && isOpts(se.X) {
+						optsUses = append(optsUses, strings.Join(strings.Fields(c.Src(x)), " "))
+					}
+					for _, a := range x.Args {
+						if id, ok := a.(*ast.Ident); ok && id.Name == "opts" {
+							optsUses = append(optsUses, strings.Join(strings.Fields(c.Src(x)), " "))
+						}
+					}
+				}
+				return true
+			})
+		}
+		c.Fact("negotiate.client_opts", optsUses)
+		// Server.Connect: what lies between connect() returning (the session's read loop is running) and
+		// the critical section that publishes ss.supportedVersions; and that the transport is interrogated
+		// inside that critical section (Stack.lean, Race)
+		window := []string{}
+		if sconn != nil {
+			in := false
+			for _, st := range sconn.Body.List {
+				src := strings.Join(strings.Fields(c.Src(st)), " ")
+				if strings.Contains(src, ":= connect(") {
+					in = true
+					continue
+				}
+				if in && src == "ss.mu.Lock()" {
+					break
+				}
+				if in {
+					window = append(window, src)
+				}
+			}
+		}
+		c.Fact("negotiate.connect_window", window)
 		// the streamable CLIENT transport against a peer that answers server/discover with an HTTP error:
 		// every such answer reaches Client.Connect as a per-call rejection (the connection survives and the
 		// initialize fallback runs on it) — the model's `DiscResp.unavailable` class rests on these statements
